@@ -33,7 +33,7 @@ vars == <<st, l, signed, seen, committed, hbase, hlog>>
 
 K == INSTANCE KardiaNode WITH N <- Len(Hdr.power), Power <- Hdr.power, ProposerOf <- Hdr.prop,
                               InvalidBids <- {Hdr.invalid[i] : i \in 1..Len(Hdr.invalid)},
-                              SkipTimeoutCommit <- FALSE
+                              SkipTimeoutCommit <- FALSE, WaitForTxs <- Hdr.wait
 
 Nodes == 1..NN
 Init == /\ st = [n \in Nodes |-> K!InitNode(Hdr.me[n], 1)]
